@@ -303,9 +303,16 @@ impl<'a> ExpressionLoweringManager<'a> {
       function_name: hir::FunctionNameExpression {
         name: function_name,
         type_: method_type,
-        type_arguments: self
-          .type_lowering_manager
-          .lower_source_types(self.heap, &expression.inferred_type_arguments),
+        type_arguments: {
+          let inferred_targs = self
+            .type_lowering_manager
+            .lower_source_types(self.heap, &expression.inferred_type_arguments);
+          if let Some(id_type) = result_expr.type_().as_id() {
+            id_type.type_arguments.iter().cloned().chain(inferred_targs).collect_vec()
+          } else {
+            inferred_targs
+          }
+        },
       },
       context: result_expr,
     });
